@@ -1,3 +1,4 @@
+import os
 """gosym core: a symbolic interpreter for the go/ssa JSON exported by ssaexport.
 
 Shapes are concrete, scalars are symbolic (z3).  Paths are explored by
@@ -523,6 +524,9 @@ class Exec:
                 d = True
             if self.xp.profile_forks:
                 site = '%s:%s' % (self.frames[-1].fn['name'].split('/')[-1] if self.frames else 'harness', (self.cur or {}).get('ln') if self.frames else '')
+                if os.environ.get('VERIF_PROFILE') == '2':
+                    import traceback as _tb
+                    site += ' <- ' + '/'.join(f.name for f in _tb.extract_stack(limit=9)[:-1] if f.name not in ('run_fn', 'call_fn', 'branch'))
                 self.xp.fork_sites[site] = self.xp.fork_sites.get(site, 0) + 1
         elif rt == z3.sat:
             d = True
@@ -1050,6 +1054,8 @@ class Exec:
             if op == '||' or op == '|':
                 return Or(x, y)
             raise Unsupported('bool binop ' + op)
+        if op == '+' and getattr(y, 'go_rconcat', None) is not None:
+            return y.go_rconcat(self, x)
         if isinstance(x, str) or isinstance(y, str) or (is_sym(x) and x.sort() == z3.StringSort()):
             sym = is_sym(x) or is_sym(y)
             if op == '+':
@@ -1665,6 +1671,25 @@ def op_range(ex, fr, ins, b):
         fr.regs[ins['r']] = MapIter([])
     elif isinstance(x, str):
         fr.regs[ins['r']] = MapIter([(i, ord(c)) for i, c in str_runes(x)])
+    elif isinstance(x, SymMap):
+        # bounded: a ranged-over symbolic map has at most RANGE_BOUND entries (larger maps are outside the claim, stated as a
+        # bound by the checks that reach this).  The entry set is fixed *exactly* (an explicit store chain, no quantifier);
+        # the keys are fresh symbols, so every iteration order is covered.
+        K = getattr(ex.xp, 'symmap_range_bound', 2)
+        n = ex.choose(K + 1, 'range-symmap')
+        ex.xp.stats['symmap_ranges'] = ex.xp.stats.get('symmap_ranges', 0) + 1
+        keys = [ex.fresh('mapkey', 'str') for _ in range(n)]
+        has = z3.K(z3.StringSort(), z3.BoolVal(False))
+        for k in keys:
+            has = z3.Store(has, k, z3.BoolVal(True))
+        if n >= 2:
+            ex.assume(z3.Distinct(*keys))
+        ex.assume(x.has == has)
+        if x.nil is not False and n > 0:
+            ex.assume(Not(x.nil))
+        if getattr(x, 'size', None) is not None:
+            ex.assume(x.size == n)
+        fr.regs[ins['r']] = MapIter([(k, z3.Select(x.val, k)) for k in keys])
     else:
         hook = getattr(x, 'go_range', None)
         if hook is None:
